@@ -66,6 +66,10 @@ type prodCase struct {
 	// before the resource's modification time), "if-modified-since-future"
 	// (only with If-None-Match present).
 	Extra string `json:"extra,omitempty"`
+	// Spell: another spelling of the request path that names the same
+	// resource: "slash" (/t/), "dotseg" (/./t), "dblslash" (//t), "updown"
+	// (/x/../t). The verdict is the cell's.
+	Spell string `json:"spell,omitempty"`
 	// filled while executing (for the witness)
 	IMValue  string `json:"if_match_value,omitempty"`
 	INMValue string `json:"if_none_match_value,omitempty"`
@@ -443,7 +447,8 @@ func runCell(c *fw.Ctx, cs *prodCase) (*outcome, error) {
 		return nil, err
 	}
 	fx.h.last = nil
-	rp := do(fx.h, cs.Method, "/t", hs, body)
+	target := map[string]string{"": "/t", "slash": "/t/", "dotseg": "/./t", "dblslash": "//t", "updown": "/x/../t"}[cs.Spell]
+	rp := do(fx.h, cs.Method, target, hs, body)
 	after, err := mon.Snapshot(fx.root)
 	if err != nil {
 		return nil, err
@@ -490,7 +495,7 @@ func execProduct(c *fw.Ctx, cs prodCase) {
 		return
 	}
 	c.Eval(1)
-	c.Distinct("product|" + cs.Method + "|" + cs.State + "|" + cs.IM + "|" + cs.INM + "|" + cs.Extra)
+	c.Distinct("product|" + cs.Method + "|" + cs.State + "|" + cs.IM + "|" + cs.INM + "|" + cs.Extra + "|" + cs.Spell)
 	cs.Status, cs.Effect, cs.Diff = o.status, o.effect, strings.Join(o.diff, "; ")
 
 	exists := cs.State != "absent"
@@ -502,6 +507,9 @@ func execProduct(c *fw.Ctx, cs prodCase) {
 	keyHead := cs.Method + "|" + cs.State + "|" + fold(cs.IM) + "|" + fold(cs.INM) + "|want "
 	if cs.Extra != "" {
 		keyHead = cs.Method + "|" + cs.State + "|" + fold(cs.IM) + "|" + fold(cs.INM) + "|+" + cs.Extra + "|want "
+	}
+	if cs.Spell != "" {
+		keyHead = cs.Method + "|" + cs.State + "|" + fold(cs.IM) + "|" + fold(cs.INM) + "|path spelled " + cs.Spell + "|want "
 	}
 	if o.panic != "" {
 		c.Report(keyHead+v.want+"|got panic", "handler panicked: "+o.panic, cs)
@@ -582,6 +590,11 @@ func runProduct(c *fw.Ctx) {
 						if im != "unset" {
 							execProduct(c, prodCase{Method: m, State: st, IM: im, INM: inm, Extra: "if-unmodified-since-old"})
 							c.Observe("universe", "product cell repeated with If-Unmodified-Since (ignored next to If-Match)", 1)
+						}
+						// ... and once under another spelling of the request path
+						if sp := []string{"slash", "dotseg", "dblslash", "updown"}[idx%4]; !(sp == "slash" && m == "PUT" && st == "absent") {
+							execProduct(c, prodCase{Method: m, State: st, IM: im, INM: inm, Spell: sp})
+							c.Observe("universe", "product cell repeated under another spelling of the path ("+sp+")", 1)
 						}
 						if inm != "unset" {
 							execProduct(c, prodCase{Method: m, State: st, IM: im, INM: inm, Extra: "if-modified-since-future"})
